@@ -4,6 +4,7 @@
 -/
 import XsVerif.Model.Defuse
 import XsVerif.Model.Prolog
+import XsVerif.Model.OpenFlow
 import XsVerif.Lemmas.Defuse
 import XsVerif.Lemmas.Prolog
 import XsVerif.Generated.C13
@@ -642,5 +643,75 @@ def resC : Res := ⟨2, .remote, ⟨false, .buffered, false, true⟩, true, 100,
 example : build .current .remote (.cons resA .main (.cons resB .incl (.cons resC .incl .nil .nil) .nil) .nil) =
     ([.opened resA, .parsed resA, .opened resB, .parsed resB, .opened resC, .scanned resC,
       .failed resC .forbidden], .raised .forbidden) := by decide
+
+/-! ## the caller: a file-like source in ANY initial state
+
+  The reader theorems above (`rewind_exact` …) are about the wrapper `defuse_xml` builds; these are about
+  `XMLResource.open()` itself: whatever position the stream is at when the library opens it (sniffed by
+  the application, used before by another call), what the parser is fed is what the scan was fed.
+  Seeded change C13-5 (no rewind before the scan when defusing applies) is what they exclude. -/
+
+open XsVerif.OpenFlow
+
+/-- **open_scanned_eq_parsed.**  For every stream (seekable or not, any content) and every initial
+    position: the bytes the scan is fed are the bytes the parser is fed. -/
+theorem open_scanned_eq_parsed (st : Stream) : st.scanned = st.parsed := by
+  cases h : st.seekable <;> simp [Stream.scanned, Stream.parsed, Stream.afterGuard, Stream.parseFrom, h]
+
+/-- … and for a seekable stream both are the WHOLE document, for every initial position. -/
+theorem open_seekable_whole (st : Stream) (h : st.seekable = true) :
+    st.scanned = st.data ∧ st.parsed = st.data := by
+  simp [Stream.scanned, Stream.parsed, Stream.afterGuard, Stream.parseFrom, h]
+
+/-- Whatever `open()` hands to the parser while defusing applies has itself gone through the scan
+    and reached no handler. -/
+theorem open_parsed_was_scanned (st : Stream) (b : List Nat) (h : openResult true st = some b) :
+    b = st.scanned ∧ scanPasses (classify b) = true := by
+  unfold openResult at h
+  by_cases hp : scanPasses (classify st.scanned) = true
+  · simp [hp] at h
+    rw [open_scanned_eq_parsed]
+    exact ⟨h.symm, by rw [← h, ← open_scanned_eq_parsed]; exact hp⟩
+  · simp [hp] at h
+
+/-- The initial position of a seekable stream has no influence on the result of `open()`. -/
+theorem open_position_irrelevant (d : Bool) (st : Stream) (k : Nat) (h : st.seekable = true) :
+    openResult d { st with pos := k } = openResult d st := by
+  simp [openResult, Stream.scanned, Stream.parsed, Stream.afterGuard, Stream.parseFrom, h]
+
+/-- **open_refuses_at_any_position.**  A document of the grammar whose prolog reaches a handler is
+    refused when it is given as a seekable stream at ANY position (inside the XML declaration,
+    inside the DOCTYPE, after it, at the end, …). -/
+theorem open_refuses_at_any_position (p : Prolog) (root : Bytes) (k : Nat) (hwf : p.wf = true)
+    (hr : startsTag root = true) (hne : firstHandler p ≠ .clean) :
+    openResult true ⟨true, p.render ++ root, k⟩ = none := by
+  have hm := render_never_malformed p root hwf hr
+  have hc := classify_render p root hwf hr
+  have hs : Stream.scanned ⟨true, p.render ++ root, k⟩ = p.render ++ root := by
+    simp [Stream.scanned, Stream.afterGuard]
+  unfold openResult
+  rw [hs]
+  cases hv : classify (p.render ++ root) <;> simp_all [scanPasses]
+
+/-- a non-seekable stream at position `k` (`scanned` = the rest of the stream): the wrapper is built over it; after any
+    scan and a successful rewind the parser is fed exactly `parsed` (instance of `rewind_exact`) -/
+theorem open_nonseekable_exact (st : Stream) (g : Bool) (size : Nat) (ks : List Nat) (r1 : Reader)
+    (hs : ((Reader.init g size st.scanned).readMany ks).2.seek 0 = some r1) :
+    (r1.read none).1 = st.parsed := by
+  rw [← open_scanned_eq_parsed]
+  exact (rewind_exact st.scanned g size ks [] r1 hs).2.2
+
+/-- `<!DOCTYPE r [<!ENTITY e "v">]><r/>` -/
+def entityDoc : Bytes :=
+  (⟨false, none, [], some ⟨[114], none, some [.entity false [101] (.value ⟨.dq, [118]⟩)]⟩, []⟩ : Prolog).render ++
+    [60, 114, 47, 62]
+
+/-- the code refuses the document at position 5; without the guard (seeded change C13-5) the scan
+    starts at `CTYPE …`, ends in a syntax error that is swallowed, and the whole document — entity
+    declaration included — goes to the parser -/
+example : openResult true ⟨true, entityDoc, 5⟩ = none ∧
+    openResultSeeded true ⟨true, entityDoc, 5⟩ = some entityDoc ∧
+    classify entityDoc = .entity [101] := by decide +kernel
+example : openResult true ⟨false, entityDoc, 30⟩ = some [60, 114, 47, 62] := by decide +kernel
 
 end XsVerif.Props.C13
